@@ -234,7 +234,11 @@ impl Ctx {
         let inner: Box<dyn Roll> = match r[0].n() {
             0 => Box::new(DeleteRoller::new()),
             _ => {
-                let ext = if r[3].b() { "gz" } else { "log" };
+                let ext = match r[3].n() {
+                    0 => "log",
+                    2 => "zst",
+                    _ => "gz",
+                };
                 let d = self.dir.display();
                 let pattern = match opt(r, 4) {
                     0 => format!("{}/arch.{{}}.{}", d, ext),
@@ -344,7 +348,7 @@ impl Ctx {
             2 => (None, parts[1]),
             _ => return (2, 0, false),
         };
-        if ext != "log" && ext != "gz" {
+        if ext != "log" && ext != "gz" && ext != "zst" {
             return (2, 0, false);
         }
         let idx = match (dir_idx, file_idx) {
@@ -353,7 +357,7 @@ impl Ctx {
             (None, Some(b)) => b,
             _ => return (2, 0, false),
         };
-        (1, idx, ext == "gz")
+        (1, idx, ext == "gz" || ext == "zst")
     }
 
     /// Some(snapshot) if every listed file could be read (and gunzipped)
@@ -370,7 +374,18 @@ impl Ctx {
                 ents.push((2, 0, name.into_bytes()));
             } else if gz {
                 let mut out = Vec::new();
-                if flate2::read::GzDecoder::new(&raw[..]).read_to_end(&mut out).is_ok() {
+                let decoded = if name.ends_with(".zst") {
+                    match zstd::stream::decode_all(&raw[..]) {
+                        Ok(v) => {
+                            out = v;
+                            true
+                        }
+                        Err(_) => false,
+                    }
+                } else {
+                    flate2::read::GzDecoder::new(&raw[..]).read_to_end(&mut out).is_ok()
+                };
+                if decoded {
                     ents.push((kind, idx, out));
                 } else if strict {
                     return None;
@@ -630,7 +645,11 @@ pub fn run(case: &Val) -> Val {
             }
             8 | 9 => {
                 let r = ctx.roller.l();
-                let ext = if r[3].b() { "gz" } else { "log" };
+                let ext = match r[3].n() {
+                    0 => "log",
+                    2 => "zst",
+                    _ => "gz",
+                };
                 let slot = ctx.dir.join(format!("arch.{}.{}", r[1].n(), ext));
                 if o[0].n() == 8 {
                     if std::os::unix::fs::symlink("/dev/full", &slot).is_err() {
